@@ -8,23 +8,30 @@ from common import Ctx, driver_json, fmt
 import uni_common as U
 
 PROPERTY = "C09"
-LEAN_MODULES = ["Proofs.C09", "Proofs.C09.Kernel", "Proofs.C09.Recip", "Proofs.C09.Tick", "Proofs.C09.ByValue"]
+LEAN_MODULES = ["Proofs.C09", "Proofs.C09.Kernel", "Proofs.C09.Recip", "Proofs.C09.Tick", "Proofs.C09.ByValue", "Proofs.C09.Fee", "Proofs.C09.Views", "Proofs.C09.Std", "Proofs.C09.Witness", "Proofs.C09.Explicit", "Proofs.C09.ByValueIn"]
 DRIVERS = ["driver"]
 RULE = ("each case builds a real UniLpMarket on pool (token0 = quote) and on its mirror (token0 = base; ticks negated, per-token volumes swapped, "
         "same base/quote price, same wallet) and runs the same sequence of base/quote-denominated operations on both: add_liquidity (by price), "
         "add_liquidity_by_tick, remove_liquidity (all / part, with and without collect), collect_fee, buy, sell, swap, even_rebalance, "
-        "add_liquidity_by_value, a fee accrual step (set_market_status + update), and after every step the views get_market_balance, "
+        "add_liquidity_by_value, a fee accrual step (set_market_status + update; a directed stream walks the tick onto / along / off a range bound), and after every step the views get_market_balance, "
         "get_position_status, estimate_amount, estimate_liquidity — with the price inside, below and above the ranges, on a range bound, decimals "
         "6/18, 18/6, 8/18, 18/18, 6/6, all three fee tiers. Buckets = (operation, price regime, decimals pair, fee tier, outcome, observable class).")
 TRUSTED = ["the mirror law of the numeric kernel (sqrt(1.0001^t) vs sqrt(1.0001^-t), Decimal sqrt of p vs 1/p, Decimal(10**-12) being a binary double) "
-           "holds only approximately; C09_orchestration is proved for kernels that satisfy it exactly, the distance of the concrete kernel from an "
-           "exactly mirrored one is MEASURED here against the property's 1e-12 / 0.1 % (max relative deviation in the evidence)",
+           "holds only approximately: C09_std_kernel_has_no_exact_mirror proves that NO sqrt-price map makes the code's kernel satisfy it exactly. "
+           "C09_orchestration(_explicit_price), the view theorems and C09_add_by_value_mirror_exact are statements about the orchestration code for "
+           "kernels that do satisfy it (non-trivial instance: C09_mirror_law_has_nontrivial_instance); what the code's own helpers satisfy is proved "
+           "in Proofs/C09/Std.lean with the reciprocity slack explicit (C09_std_sqrtToPrice/tickToPrice/amount0/amount1_mirror_eps, bounded on the "
+           "whole tick range by C09_kernel_reciprocity). The propagation of that slack through wallet checks and the liquidity floors is NOT proved: "
+           "the closeness of the concrete results is MEASURED here against the property's 1e-12 / 0.1 % (max relative deviation in the evidence)",
            "math.log tick estimates and estimate_ratio are libm oracles"]
 ASSUMPTIONS = ["|tick| <= 330000 + range width: get_liquidity_for_amount0 floors sqrtA*sqrtB/2^96, which has only 2^96*1.0001^t significant units at negative ticks (1e12 at t = -389000), so 1e-12 cannot hold beyond; an extreme-band stream is measured separately",
                "amounts are compared at max(1e-12, 2/L_min) relative plus 4 atomic units, L_min = smallest positive liquidity held: liquidity is an "
                "integer, one unit of it is 1/L of the position (matters below L = 2e12); liquidity itself at 1e-12 relative plus 2 units",
                "a state in which the price lies on a range bound to within 1e-9 relative (in sqrt price) is counted and not compared: there the kernels' "
-               "reciprocity error (~1e-17) decides the regime and get_liquidity divides by (s - sqrt_bound); the property's regimes are in / below / above",
+               "reciprocity error (~1e-17) decides the regime and get_liquidity divides by (s - sqrt_bound); the property's regimes are in / below / above "
+               "(applies to every entry point that opens or values a range: add_liquidity by price — whose ticks each orientation derives from the two quote "
+               "prices —, add_liquidity_by_tick, add_liquidity_by_value, remove, the views; the *fee accrual* on a bound is discrete in the ticks and is not "
+               "skipped: stream fee-bound, theorem C09_fee_mirror, known finding mirror.fee.stationary-on-bound)",
                "a price closer than 1e-4 relative (two ticks) to a range bound without being on it — only prices that are not on a tick get there — "
                "is compared at max(1e-12, 4e-17 / distance): amounts and liquidity are quotients by (sqrtP - sqrt_bound) there and the two orientations' "
                "sqrt prices differ by ~1e-17 relative (Decimal(10**-12) is a binary double)",
@@ -301,6 +308,19 @@ def conditioning_tol(P, op=None):
 def regime_flip(P, op):
     """price numerically on a range bound: which side it falls on (and, inside, how far from the bound) is decided by the kernels'
     reciprocity error of ~1e-17, and get_liquidity is ill-conditioned there (amount / (s - sqrt_bound))"""
+    if op["op"] == "add" and "lower_price" in op:
+        # the price-form add: each market derives its own (usable) ticks from the two quote prices, exactly as `add_liquidity` does
+        from demeter.uniswap.core import V3CoreLib
+        from demeter.uniswap.helper import nearest_usable_tick
+        try:
+            out = False
+            for w in (P.A, P.B):
+                lt, ut = V3CoreLib.quote_price_pair_to_tick(w.pool, op["lower_price"], op["upper_price"])
+                lt, ut = sorted((nearest_usable_tick(lt, P.sp), nearest_usable_tick(ut, P.sp)))
+                out = out or near_bound(w, lt, ut)
+            return out
+        except Exception:  # noqa: BLE001
+            return False
     if "lower" not in op or "upper" not in op or op["op"] in ("collect",):
         return False
     lo, up = op["lower"], op["upper"]
@@ -601,6 +621,77 @@ def directed_streams(ctx, rng):
         run_sequence(ctx, rng, rng.randint(1, 4), frac=Fraction(rng.choice((1, 2, 3, 5, 7, 8, 9)), 10), est_p=1)
 
 
+def fee_bound_stream(ctx, rng):
+    """fee accrual with the tick path touching a range bound (theorem C09_fee_mirror and its witness C09_fails_fee_mirror_on_lower_bound).
+    `update_fee` uses the half-open range [lower, upper): negating ticks maps it to (-upper, -lower], so a tick that sits on a bound changes
+    class in the mirror.  A *moving* path is unaffected (closed-interval overlap is symmetric: arriving on / leaving a bound must agree, held to
+    the property); a tick *stationary* on a bound accrues the whole bar in one token order and nothing in the other — the known finding
+    `mirror.fee.stationary-on-bound`.  The position is opened with the price well inside the range, then bars walk the tick."""
+    def pend(P):
+        oa, ob = observe(P.A, False), observe(P.B, True)
+        out = []
+        for k in sorted(oa["positions"]):
+            a, b = oa["positions"][k], ob["positions"].get(k)
+            if b is None:
+                return None
+            out.append(((Fraction(a["pending_base"]), Fraction(a["pending_quote"])), (Fraction(b["pending_base"]), Fraction(b["pending_quote"]))))
+        return out
+
+    def same(P, before, after):
+        """fee increments of the bar agree between the two orientations"""
+        tol = max(TOL, liq_granularity(P))
+        for (a0, b0), (a1, b1) in zip(before, after):
+            for i in (0, 1):
+                if not close(a1[i] - a0[i], b1[i] - b0[i], tol, Fraction(1, 10 ** 30)):
+                    return False
+        return True
+
+    for fee in U.FEES:
+        sp = int(Decimal(str(fee)) * 200)
+        for spec in SPECS:
+            for bound in ("lower", "upper"):
+                for _ in range(ctx.scale(1, 6)):
+                    width = rng.randint(4, 40) * sp
+                    lo = rng.randint(-BAND // sp, BAND // sp - 41) * sp
+                    up = lo + width
+                    t_in = lo + (width // sp // 2) * sp
+                    tb = lo if bound == "lower" else up
+                    t_out = lo - rng.randint(1, 5) * sp if bound == "lower" else up + rng.randint(1, 5) * sp
+                    P = Pair(rng, *spec, fee, t_in)
+                    w = P.A
+                    bb, qb = w.broker.assets[w.pool.base_token].balance, w.broker.assets[w.pool.quote_token].balance
+                    op = {"op": "add_by_tick", "lower": lo, "upper": up, "base": bb * Decimal("0.2"), "quote": qb * Decimal("0.2"), "sqrt": None, "tick": None,
+                          "trim": True}
+                    rep = {"pair": P.spec, "ops": [{k: (fmt(v) if isinstance(v, (Decimal, Fraction)) else v) for k, v in op.items()}], "fee_bound": True}
+                    (ea, _), (eb, _) = apply_both(P, op)
+                    if ea or eb or not P.A.market.positions:
+                        ctx.case(f"fee-bound:{bound}:{P.dq}/{P.db}:{fee}:add-rejected")
+                        continue
+                    # inside -> onto the bound (moving), stay on it (stationary: the finding), off it to the outside (moving), back onto it from
+                    # outside (moving), stay (stationary again, now entered from outside), back inside (moving)
+                    for tick, kind in ((tb, "arrive-from-inside"), (tb, "stationary"), (t_out, "leave-to-outside"), (tb, "arrive-from-outside"),
+                                       (tb, "stationary"), (t_in, "leave-to-inside")):
+                        before = pend(P)
+                        P.refresh(rng, tick)
+                        after = pend(P)
+                        rep = {"pair": P.spec, "ops": rep["ops"] + [{"op": "bar", "tick": tick}], "fee_bound": True}
+                        if before is None or after is None:
+                            break
+                        moved = any(a1 != a0 or b1 != b0 for (a0, b0), (a1, b1) in zip(before, after))
+                        ok = same(P, before, after)
+                        ctx.case(f"fee-bound:{bound}:{kind}:{P.dq}/{P.db}:{fee}:{'accrued' if moved else 'nothing'}:{'same' if ok else 'differs'}")
+                        if ok:
+                            continue
+                        inc_a = [[float(a1[i] - a0[i]) for i in (0, 1)] for (a0, _), (a1, _) in zip(before, after)]
+                        inc_b = [[float(b1[i] - b0[i]) for i in (0, 1)] for (_, b0), (_, b1) in zip(before, after)]
+                        if kind == "stationary":
+                            ctx.violate("mirror.fee.stationary-on-bound", f"fee accrual with the tick stationary on the {bound} bound {tb} of [{lo},{up}] "
+                                        f"(token0=quote pool; mirror: tick {-tb} on [{-up},{-lo}]): bar increments (base, quote) {inc_a} vs mirror {inc_b}", rep)
+                        else:
+                            ctx.violate(f"mirror.fee.{kind}", f"fee accrual of a bar whose tick path {kind} ({bound} bound {tb} of [{lo},{up}]) differs between "
+                                        f"the token0=quote pool and its mirror: increments (base, quote) {inc_a} vs {inc_b}", rep)
+
+
 def estimate_edge_stream(ctx, rng, n):
     """estimate_liquidity / estimate_amount with a range bound within one tick of a price that is not on a tick: estimate_liquidity decides
     below / inside / above by the floor tick of the pool's own orientation (`current_tick <= lower_tick` is "below"), which is not
@@ -655,6 +746,7 @@ def run(ctx: Ctx):
     for i in range(ctx.scale(600, 12000)):
         run_sequence(ctx, rng, rng.randint(2, 9))
     directed_streams(ctx, rng)
+    fee_bound_stream(ctx, rng)
     estimate_edge_stream(ctx, rng, ctx.scale(60, 1500))
     midpoint_stream(ctx, rng, ctx.scale(40, 1000))
     ctx.impl_traces = ctx.evaluations
@@ -690,10 +782,22 @@ def replay(ctx: Ctx, case) -> bool:
         op = {k: (Decimal(v) if k in DEC and v is not None else v) for k, v in opj.items()}
         if op["op"] == "remove" and op["liq"] is not None:
             op["liq"] = Fraction(op["liq"])
+        held_flip = lambda: any(regime_flip(P, {"op": "x", "lower": k.lower_tick, "upper": k.upper_tick})   # noqa: E731
+                                for w_ in (P.A,) for k in w_.market.positions)
         if op["op"] == "bar":
             P.refresh(rng, op["tick"])
+            if held_flip() and not case.get("fee_bound"):
+                print("   price numerically on a range bound after the bar: counted, not compared (ASSUMPTIONS)")
+                return not sub.violations
         else:
+            if regime_flip(P, op) or held_flip():
+                # the same policy as run_sequence: a price within 1e-9 (in sqrt price) of a range bound is counted, not compared
+                print("   price numerically on a range bound: counted, not compared (ASSUMPTIONS)")
+                return not sub.violations
             (ea, ra), (eb, rb) = apply_both(P, op)
+            if held_flip():
+                print("   price numerically on a range bound: counted, not compared (ASSUMPTIONS)")
+                return not sub.violations
             if ea != eb:
                 print("   outcome", ea, eb)
                 return False
